@@ -78,6 +78,8 @@ impl<F: Float, D: Distance<F>> NearestNeighbourIndex<F> for KdTreeIndex<'_, F, D
                 &|a, b| self.1.rdistance(aview1(a), aview1(b)),
             )?
             .into_iter()
+            // `kdtree::KdTree::within` keeps points at exactly `range`; the other indices do not
+            .filter(|(rdist, _)| *rdist < range)
             .map(|(_, (pt, pos))| (pt.reborrow(), *pos))
             .collect())
     }
